@@ -582,8 +582,14 @@ func appendKey(b *bytes.Buffer, v px.Value) {
 		b.WriteByte(HkType)
 		b.Write([]byte(pt.Name()))
 		if ppt, ok := pt.(px.ParameterizedType); ok {
-			for _, p := range ppt.Parameters() {
-				appendTypeParamKey(b, p)
+			switch pt.(type) {
+			case *EnumType, *PatternType, *VariantType:
+				// equality disregards the order and the multiplicity of the members
+				appendSortedKeys(b, ppt.Parameters())
+			default:
+				for _, p := range ppt.Parameters() {
+					appendTypeParamKey(b, p)
+				}
 			}
 		}
 		b.WriteByte(HkEnd)
@@ -591,6 +597,22 @@ func appendKey(b *bytes.Buffer, v px.Value) {
 		b.Write([]byte(hk.ToKey()))
 	} else {
 		panic(px.Error(px.InvalidHashKey, issue.H{`type`: v.PType()}))
+	}
+}
+
+// appendSortedKeys writes the keys of the given values in sorted order and without duplicates
+func appendSortedKeys(b *bytes.Buffer, values []px.Value) {
+	keys := make([]string, len(values))
+	for i, v := range values {
+		vb := bytes.NewBuffer([]byte{})
+		appendKey(vb, v)
+		keys[i] = vb.String()
+	}
+	sort.Strings(keys)
+	for i, k := range keys {
+		if i == 0 || k != keys[i-1] {
+			b.WriteString(k)
+		}
 	}
 }
 
